@@ -431,3 +431,54 @@ def rule_nan1(ctx, min_sites=3):
                             f"found, {min_sites} confirmed by hand (stale "
                             "table)")
     return n_sites
+
+
+PYPLOT_ARTIST_FUNCS = {"plot", "scatter", "fill", "fill_between", "bar",
+                       "text", "annotate", "axhline", "axvline", "arrow",
+                       "imshow", "errorbar", "step", "stem", "hlines",
+                       "vlines", "quiver", "contour", "polar", "loglog",
+                       "semilogx", "semilogy", "hist"}
+
+
+def rule_curax1(ctx):
+    r = ctx.r
+    r.rule("CURAX1", "a drawing adds its artists to ITS OWN axes: every "
+                     "artist-creating call in a draw_* method goes through "
+                     "`self.ax` (30 of the 33 sites on the pinned tree); "
+                     "the pyplot state-machine functions (plt.plot, "
+                     "plt.scatter, plt.gca().., ..) draw on whatever axes "
+                     "happen to be current -- with two drawings alive the "
+                     "points of the first land in the second, at the first "
+                     "one's model coordinates")
+    n = 0
+    mod = ctx.p.module_by_rel(DRAW)
+    for f in ctx.p.all_functions:
+        if f.module is not mod or f.cls is None \
+                or not f.name.startswith("draw_"):
+            continue
+        r.analysed(f)
+        for c in ast.walk(f.node):
+            if not (isinstance(c, ast.Call)
+                    and isinstance(c.func, ast.Attribute)):
+                continue
+            base = dotted(c.func.value)
+            if base in ("plt", "pyplot", "matplotlib.pyplot") \
+                    and c.func.attr in PYPLOT_ARTIST_FUNCS | {"gca", "gcf"}:
+                n += 1
+                r.violation(
+                    "CURAX1", f"{f.fq}|plt.{c.func.attr}", loc(f, c),
+                    dotted(c)[:80],
+                    f"{f.qualname} draws with pyplot's `plt.{c.func.attr}`, "
+                    "i.e. on the CURRENT axes, not on self.ax: create "
+                    "drawing d1, then d2 (another figure, or a subplot of "
+                    "another model), call d1.draw_point(p): the marker is "
+                    "added to d2's axes at d1's model coordinates and d1 "
+                    "gets no artist",
+                    instance=f"{f.qualname}:plt.{c.func.attr}")
+            elif base == "self.ax":
+                n += 1
+                r.ok("CURAX1", f"{f.qualname}:{c.func.attr}@{c.lineno}",
+                     loc(f, c), dotted(c)[:60], "through self.ax")
+    if n == 0:
+        r.note("CURAX1", DRAW, "draw_* methods",
+               "no artist-creating call found (not judged)")
